@@ -226,6 +226,69 @@ pub fn check_frame(c: &FrameCase, st: &mut Stats) -> Result<(), Viol> {
     Ok(())
 }
 
+// ------------------------------------------------------------------ unterminated last line
+// A line is a line only when its terminator has arrived: what a client has sent of its last,
+// unterminated line when the connection ends is never executed.
+#[derive(Clone, Debug, Serialize, Deserialize)]
+pub struct EofCase {
+    pub seeds: Vec<u16>,
+}
+
+pub fn check_eof_fragment(c: &EofCase, st: &mut Stats) -> Result<(), Viol> {
+    let mut s = S::new(&c.seeds);
+    let (mut w, me) = scene(s.raw() as u64);
+    let complete = s.pick(3);
+    let mut bytes: Vec<u8> = vec![];
+    for i in 0..complete {
+        bytes.extend_from_slice(format!("PRIVMSG n1 :complete line {}\r\n", i).as_bytes());
+    }
+    let frag = [
+        "PRIVMSG n1 :never terminated",
+        "PRIVMSG n1 :never terminated\r",
+        "NICK stolen",
+        "JOIN #fragment",
+        "PRIVMSG n1 :x",
+        "QUIT :bye",
+        "P",
+        "PRIVMSG n1 :\u{e9}\u{65e5}",
+    ][s.pick(8)];
+    bytes.extend_from_slice(frag.as_bytes());
+    // a multi-byte character cut in the middle is a fragment too
+    let cut_mb = frag.ends_with('\u{65e5}') && s.chance(50);
+    if cut_mb {
+        bytes.pop();
+    }
+    w.send_bytes(me, &bytes);
+    w.settle();
+    let kind = if s.chance(50) { crate::sim::CloseKind::Drop } else { crate::sim::CloseKind::HalfClose };
+    w.close(me, kind);
+    w.settle();
+    w.settle();
+    let obs = w.drain(1);
+    crate::sim::set_in_sim(false);
+    let _ = crate::sim::take_panics();
+    st.nontrivial(format!("{}|{}|{:?}|{}", complete, frag.split(' ').next().unwrap_or(""), kind, cut_mb), || json!({"complete_lines": complete, "fragment": frag, "close": format!("{:?}", kind)}));
+    let delivered = obs.iter().filter(|l| l.contains(" PRIVMSG n1 :complete line")).count();
+    let fail = |sig: &str, msg: String| Viol::new("C13.framing", format!("framing:{}", sig), format!("{} complete line(s), then the unterminated {:?}, then the connection ends ({:?}): {}; observer got {:?}", complete, frag, kind, msg, obs));
+    if delivered != complete {
+        return Err(fail("complete-lost", format!("{} of the {} complete lines were executed", delivered, complete)));
+    }
+    // nothing else may reach the observer: no message from the fragment, no NICK / JOIN of it
+    let extra: Vec<&String> = obs.iter().filter(|l| !l.contains(" PRIVMSG n1 :complete line")).collect();
+    if !extra.is_empty() {
+        return Err(fail("fragment-executed", "the unterminated fragment was executed".into()));
+    }
+    // and the state is untouched: the nick of the fragment is free, its channel does not exist
+    w.send_line(1, "ISON stolen");
+    w.send_line(1, "LIST #fragment");
+    w.settle();
+    let ls = w.drain(1);
+    if ls.iter().any(|l| l.contains(" 303 ") && l.contains("stolen")) || ls.iter().any(|l| l.contains(" 322 ")) {
+        return Err(fail("fragment-executed", format!("the unterminated fragment changed the state: {:?}", ls)));
+    }
+    Ok(())
+}
+
 // ------------------------------------------------------------------------------ chunking
 #[derive(Clone, Debug, Serialize, Deserialize)]
 pub struct ChunkCase {
@@ -556,9 +619,10 @@ pub fn run_c13_sim(ctx: &RunCtx) -> Vec<PartOutcome> {
     }
     let idx2 = idx.clone();
     parts.push(enumerate(ctx, "verb_table", idx.len() as u64, move |i| idx2[i as usize].clone(), check_verb));
-    parts.push(explore(ctx, "framing", ctx.tier.pick(600, 6_000), frame_strat, check_frame));
-    parts.push(explore(ctx, "chunking", ctx.tier.pick(800, 10_000), chunk_strat, check_chunk));
-    let n = ctx.tier.pick(3_000, 40_000);
+    parts.push(explore(ctx, "framing", ctx.tier.pick(2_000, 20_000), frame_strat, check_frame));
+    parts.push(explore(ctx, "chunking", ctx.tier.pick(2_500, 30_000), chunk_strat, check_chunk));
+    parts.push(explore(ctx, "eof_fragment", ctx.tier.pick(2_000, 20_000), || prop::collection::vec(any::<u16>(), 8).prop_map(|seeds| EofCase { seeds }), check_eof_fragment));
+    let n = ctx.tier.pick(8_000, 100_000);
     parts.push(explore(ctx, "relay", n, || crate::scenario::sc_strategy(RELAY.ncfg, RELAY.max_ops), |c: &crate::scenario::ScCase, st: &mut Stats| run_case(&RELAY, c, st)));
     parts
 }
@@ -568,6 +632,7 @@ pub fn replay_c13_sim(part: &str, input: &Value) -> Option<Result<Result<(), Vio
         "verb_table" => Some(replay_input::<VerbCase>(input, check_verb)),
         "framing" => Some(replay_input::<FrameCase>(input, check_frame)),
         "chunking" => Some(replay_input::<ChunkCase>(input, check_chunk)),
+        "eof_fragment" => Some(replay_input::<EofCase>(input, check_eof_fragment)),
         "relay" => Some(replay_input::<crate::scenario::ScCase>(input, |c, st| run_case(&RELAY, c, st))),
         _ => None,
     }
